@@ -92,6 +92,18 @@ Proof.
 Qed.
 
 (* every transport is wired through the interceptors *)
+(* the credential check (accounts/basic.go): a name validates only as a configured account presented with that
+   account's password -- in particular never for a name that is not an account, whatever the password *)
+Theorem C05_basic_credentials : forall accounts hdr u, basic_validate accounts hdr = Some u ->
+  exists p, hdr = Some (u, p) /\ In (u, p) accounts.
+Proof.
+  intros accounts [[hu hp]|] u H; cbn in H; [| discriminate H].
+  destruct (existsb _ accounts) eqn:E; [| discriminate H]. injection H as <-.
+  apply existsb_exists in E as [[cu cp] [Hin Hc]]. cbn in Hc. apply andb_true_iff in Hc as [H1 H2].
+  apply String.eqb_eq in H1, H2. subst. exists hp. split; [reflexivity | exact Hin].
+Qed.
+Print Assumptions C05_basic_credentials.
+
 Theorem C05_wiring : forallb snd gateway_clients = true /\ grpc_server_chained = true /\ unrecognised = []
   /\ unary_shape_ok = true /\ stream_validates_first = true
   /\ server_stream_default = DRefuses /\ client_stream_default = DRefuses.
